@@ -19,6 +19,123 @@ fn main() {
     let mut ctx = Ctx::from_args();
     start_watchdog(1800);
     let prop = ctx.opt("prop").unwrap_or("C02").to_string();
+    // all-ones vectors just beyond 2^32 bits: counters that must hold 2^32 ones or more (32-bit accumulators,
+    // 32-bit block counters plus upper counts), plain, atomic and ranked
+    for extra in [1usize, 200, 64 * 3] {
+        let len = (1usize << 32) + extra;
+        if !ctx.case(|| format!("huge all-ones vector len=2^32+{extra} ({prop})")) {
+            continue;
+        }
+        ctx.nontrivial();
+        let r = guard(|| -> Vec<(String, String)> {
+            let mut bad: Vec<(String, String)> = vec![];
+            let mut bv = BitVec::with_value(len, true);
+            let mut zeros = 0usize;
+            for round in 0..2 {
+                let ones = len - zeros;
+                if prop == "C06" {
+                    if bv.count_ones() != ones || bv.count_zeros() != zeros {
+                        bad.push(("BitVec::count_ones|wrong-observation".into(), format!("count_ones() = {} count_zeros() = {} expected {ones} / {zeros}", bv.count_ones(), bv.count_zeros())));
+                    }
+                    if bv.par_count_ones() != ones {
+                        bad.push(("BitVec::par_count_ones|wrong-observation".into(), format!("par_count_ones() = {} expected {ones}", bv.par_count_ones())));
+                    }
+                    let a: AtomicBitVec = bv.into();
+                    if a.count_ones() != ones || a.count_zeros() != zeros {
+                        bad.push(("AtomicBitVec::count_ones|wrong-observation".into(), format!("count_ones() = {} count_zeros() = {} expected {ones} / {zeros}", a.count_ones(), a.count_zeros())));
+                    }
+                    if a.par_count_ones() != ones {
+                        bad.push(("AtomicBitVec::par_count_ones|wrong-observation".into(), format!("par_count_ones() = {} expected {ones}", a.par_count_ones())));
+                    }
+                    for p in [0usize, (1 << 32) - 1, 1 << 32, len - 1] {
+                        if a.get(p, std::sync::atomic::Ordering::Relaxed) != (round == 0 || !(p == 5 || p == (1 << 32) - 1)) {
+                            bad.push(("AtomicBitVec::get|wrong-observation".into(), format!("get({p}) wrong in round {round}")));
+                        }
+                    }
+                    bv = a.into();
+                } else if prop == "C01" {
+                    macro_rules! rk {
+                        ($n:expr, $s:expr) => {{
+                            let s = $s;
+                            if s.num_ones() != ones {
+                                bad.push((format!("{}|num_ones", $n), format!("num_ones() = {} expected {ones}", s.num_ones())));
+                            }
+                            for p in [0usize, 6, (1 << 32) - 1, 1 << 32, (1 << 32) + 1, len - 1, len, len + 1, usize::MAX] {
+                                // zeros (second round) are at 5 and 2^32 - 1
+                                let e = p.min(len) - if round == 0 { 0 } else { usize::from(p > 5) + usize::from(p > (1 << 32) - 1) };
+                                if s.rank(p) != e {
+                                    bad.push((format!("{}|rank", $n), format!("rank({p}) = {} expected {e}", s.rank(p))));
+                                    break;
+                                }
+                            }
+                        }};
+                    }
+                    rk!("Rank9", Rank9::new(&bv));
+                    rk!("RankSmall<2,9>", rank_small![0; &bv]);
+                    rk!("RankSmall<1,9>", rank_small![1; &bv]);
+                    rk!("RankSmall<1,10>", rank_small![2; &bv]);
+                    rk!("RankSmall<1,11>", rank_small![3; &bv]);
+                    rk!("RankSmall<3,13>", rank_small![4; &bv]);
+                }
+                if prop == "C02" {
+                    let sel_pos = |r: usize| -> Option<usize> {
+                        if r >= ones {
+                            None
+                        } else if round == 0 || r < 5 {
+                            Some(r)
+                        } else if r + 1 < (1 << 32) - 1 {
+                            Some(r + 1)
+                        } else {
+                            Some(r + 2)
+                        }
+                    };
+                    macro_rules! sl {
+                        ($n:expr, $s:expr, $z:tt) => {{
+                            let s = $s;
+                            for r in [0usize, 4, 5, 6, (1 << 32) - 3, (1 << 32) - 2, (1 << 32) - 1, 1 << 32, ones - 1, ones, ones + 1, usize::MAX] {
+                                if s.select(r) != sel_pos(r) {
+                                    bad.push((format!("{}|select", $n), format!("select({r}) = {:?} expected {:?} (round {round})", s.select(r), sel_pos(r))));
+                                    break;
+                                }
+                            }
+                            sl!(@z $z, $n, s);
+                        }};
+                        (@z true, $n:expr, $s:expr) => {
+                            let ez: [Option<usize>; 3] = if round == 0 { [None, None, None] } else { [Some(5), Some((1 << 32) - 1), None] };
+                            for (r, e) in ez.iter().enumerate() {
+                                if $s.select_zero(r) != *e {
+                                    bad.push((format!("{}|select_zero", $n), format!("select_zero({r}) = {:?} expected {e:?} (round {round})", $s.select_zero(r))));
+                                    break;
+                                }
+                            }
+                        };
+                        (@z false, $n:expr, $s:expr) => {};
+                    }
+                    sl!("SelectZeroAdapt(SelectAdapt(AddNumBits))", SelectZeroAdapt::new(SelectAdapt::new(AddNumBits::from(&bv), 3), 3), true);
+                    sl!("Select9(Rank9)", Select9::new(Rank9::new(&bv)), false);
+                    sl!("SelectZeroSmall(SelectSmall(RankSmall<1,9>))", SelectZeroSmall::<1, 9, _>::new(SelectSmall::<1, 9, _>::new(rank_small![1; &bv])), true);
+                    sl!("SelectSmall(RankSmall<3,13>)", SelectSmall::<3, 13, _>::new(rank_small![4; &bv]), false);
+                }
+                // second round: two zeros, one below and one at the 2^32 boundary
+                bv.set(5, false);
+                bv.set((1 << 32) - 1, false);
+                zeros = 2;
+            }
+            bad
+        });
+        match r {
+            Outcome::Ret(bad) => {
+                for (k, w) in bad {
+                    ctx.violation(&format!("{prop}|{k}"), format!("all-ones vector of 2^32+{extra} bits: {w}"));
+                }
+            }
+            Outcome::Panic(m) => ctx.violation(&format!("{prop}|BitVec::<huge-all-ones>|panic"), format!("2^32+{extra} bits: {m}")),
+        }
+    }
+    if prop == "C06" {
+        ctx.finish();
+        return;
+    }
     for which in 0..4 {
         let (name, len, ones) = shape(which);
         if !ctx.case(|| format!("huge vector len={len} ({name})")) {
